@@ -295,6 +295,18 @@ def check(chk):
     ok = any(call_attr(c) == "_enable_credit_handlers" for c in ecp.calls())
     chk.ob("TABLE-10", "credit play registers the coin handlers", ok, ecp.where(), construct=ecp.ident, text="coin handlers registered")
 
+    # what the start of a game suspends (the expiry timers), the end of the game mode resumes - on *every* way the game mode ends: the pair
+    # is bound to the two lifecycle events of the game mode itself (mode_game_started / mode_game_stopped); game_ended is posted only
+    # by a regular game end, not when the game mode is stopped from outside
+    pairs_ = {}
+    for c in ecp.calls():
+        if call_attr(c) == "add_mode_event_handler" and len(c.args) >= 2 and isinstance(c.args[0], ast.Constant):
+            pairs_.setdefault(src(c.args[1]), set()).add(c.args[0].value)
+    ok = pairs_.get("self._game_started") == {"mode_game_started"} and pairs_.get("self._game_ended") == {"mode_game_stopped"}
+    chk.ob("UNIT-7", "the credit expiry is suspended and resumed on the start and the stop of the game mode (the same lifecycle, every way out)", ok, ecp.where(),
+           detail="_game_started on %s, _game_ended on %s" % (sorted(pairs_.get("self._game_started", [])), sorted(pairs_.get("self._game_ended", []))),
+           construct=ecp.ident, text="expiry suspend / resume events")
+
     # ------------------------------------------------------------ DOM-38
     sw = cr.methods["_credit_switch_callback"]
     chk.analysed(sw)
@@ -532,6 +544,7 @@ def check(chk):
 def battery():
     from sa.battery import M
     return [
+        M("expiry resumed on game_ended only", CR, "        self.add_mode_event_handler('mode_game_stopped',\n                                    self._game_ended)", "        self.add_mode_event_handler('game_ended',\n                                    self._game_ended)", "UNIT-7"),
         M("new player charged according to the configured default", CR, "    def _player_added(self, **kwargs):\n        del kwargs\n        if self.machine.settings.get_setting_value('free_play'):", "    def _player_added(self, **kwargs):\n        del kwargs\n        if self.credits_config['free_play']:", "TABLE-10"),
         M("cap overwritten by total", CR, "            self.machine.variables.set_machine_var('credit_units', max_credit_units)\n            total_credit_units = max_credit_units\n", "            self.machine.variables.set_machine_var('credit_units', max_credit_units)\n", "BOUND-2"),
         M("cap test off by one game", CR, "        if max_credit_units and total_credit_units > max_credit_units:", "        if max_credit_units and total_credit_units > max_credit_units + self.credit_units_per_game:", "BOUND-2"),
